@@ -18,10 +18,12 @@ if TYPE_CHECKING:
 
 
 DEFAULT_INNER_TAG_MAP = {
-    "for": ["break", "continue"],
+    "for": ["break", "continue", "else"],
+    "tablerow": ["break", "continue"],
     "if": ["else", "elsif"],
-    "case": ["when"],
+    "case": ["when", "else"],
     "unless": ["else", "elsif"],
+    "translate": ["plural"],
 }
 
 
@@ -155,16 +157,19 @@ class TagAnalysis:
                 continue
 
             if tag_name not in registered_tags:
-                # Possible enclosing tags for an inner tag.
-                enclosing_tags: Iterable[str] = self._inner_tags.get(tag_name, [])
+                # Possible enclosing tags for an inner tag. Only block tags that are
+                # registered with the environment can make an inner tag known.
+                enclosing_tags: Iterable[str] = [
+                    tag
+                    for tag in self._inner_tags.get(tag_name, [])
+                    if tag in env.tags
+                ]
                 if not enclosing_tags:
                     # Not an inner tag for any block.
                     unknown_tags[tag_name].append(
                         Span(self.template_name, token.start_index)
                     )
-                elif not self._valid_inner_tag(
-                    self._inner_tags.get(tag_name, []), block_stack
-                ):
+                elif not self._valid_inner_tag(enclosing_tags, block_stack):
                     # An inner tag, but not valid for any blocks currently on the stack.
                     unexpected_tags[tag_name].append(
                         Span(self.template_name, token.start_index)
